@@ -436,3 +436,33 @@ func vSend(p string) {
 }
 
 func VerifC02_Send() { vSend("C02") }
+
+// VerifC02_SendForeignDenom: a payment in a denomination the payer does not hold - one that sorts before or after the
+// staking token - is refused and creates nothing: no balance of any denomination changes and the per-denomination
+// sum of balances still equals the recorded supply.
+func VerifC02_SendForeignDenom() {
+	e := VNewEnv(2)
+	b0 := VSymInt("b0", 0, 1<<60)
+	e.Fund(e.Addrs[0], b0)
+	e.Fund(e.Addrs[1], sdk.NewInt(5))
+	denom := []string{"aaa", "zzz"}[zz.Choice("foreign_denom", 2)]
+	amt := VSymInt("amt", 1, 1<<60)
+	pay := sdk.NewCoins(sdk.NewCoin(denom, amt))
+	if zz.Choice("mixed", 2) == 1 && b0.IsPositive() {
+		pay = pay.Add(VCoins(sdk.NewInt(1))) // together with one unit of a denomination the payer does hold
+	}
+	pre0, pre1 := e.AK.GetCoins(e.Ctx, e.Addrs[0]), e.AK.GetCoins(e.Ctx, e.Addrs[1])
+	var err sdk.Error
+	if zz.Choice("via", 2) == 0 {
+		err = e.AK.SendCoins(e.Ctx, e.Addrs[0], e.Addrs[1], pay)
+	} else {
+		err = e.AK.SendCoinsFromAccountToModule(e.Ctx, e.Addrs[0], auth.FeeCollectorName, pay)
+	}
+	post0, post1 := e.AK.GetCoins(e.Ctx, e.Addrs[0]), e.AK.GetCoins(e.Ctx, e.Addrs[1])
+	zz.Assert("C02.foreign.payment-in-a-denomination-not-held-is-refused", err != nil)
+	zz.Assert("C02.foreign.nothing-created", post0.AmountOf(denom).IsZero() && post1.AmountOf(denom).IsZero() && e.ModBal(auth.FeeCollectorName).IsZero() &&
+		e.AK.GetModuleAccount(e.Ctx, auth.FeeCollectorName).GetCoins().AmountOf(denom).IsZero() &&
+		post0.AmountOf(VDenom).Equal(pre0.AmountOf(VDenom)) && post1.AmountOf(VDenom).Equal(pre1.AmountOf(VDenom)))
+	zz.Assert("C02.foreign.supply-still-sum-of-balances", e.Supply().Equal(e.SumBalances()) && e.AK.GetSupply(e.Ctx).GetTotal().AmountOf(denom).IsZero())
+	zz.Reach("C02.foreign.end")
+}
